@@ -5,7 +5,7 @@ compare with the documented matching semantics (a table in this file). Robust to
 """
 import ast
 from .core import AnalysisError
-from .astutil import src, strip_doc, if_chain, terminates
+from .astutil import src, strip_doc, if_chain, terminates, helper_def, helper_bindings
 
 Q = 'chython.periodictable.base.query'
 
@@ -33,10 +33,52 @@ def canon_atom(e):
     return ('truthy', src(e)), pol
 
 
+HELPER_TREE = [None]  # module tree in which boolean helper functions called from the ladders are looked up
+
+
+def _helper_truthy_dnf(call):
+    """DNF of "helper(args) is truthy" for a same-module boolean helper (if-ladder returning True / False / expressions), arguments substituted"""
+    import copy as _copy
+    tree = HELPER_TREE[0]
+    if tree is None:
+        return None
+    fdef = helper_def(call, tree)
+    if fdef is None:
+        return None
+    m = helper_bindings(call, fdef)
+    if m is None:
+        return None
+
+    class Swap(ast.NodeTransformer):
+        def visit_Return(self, node):
+            v = node.value
+            if isinstance(v, ast.Constant) and isinstance(v.value, bool):
+                return ast.copy_location(ast.Return(value=ast.Constant(value=not v.value)), node)
+            return ast.copy_location(ast.Return(value=ast.UnaryOp(op=ast.Not(), operand=v)), node)
+
+        def visit_Name(self, node):
+            if isinstance(node.ctx, ast.Load) and node.id in m:
+                return _copy.deepcopy(m[node.id])
+            return node
+    body = [Swap().visit(_copy.deepcopy(st)) for st in strip_doc(fdef.body)]
+    saved = HELPER_TREE[0]
+    try:
+        clauses, fall = reject_dnf(body)  # after the swap "reject" means "the helper returns True"
+    finally:
+        HELPER_TREE[0] = saved
+    if fall:
+        return None
+    return list(simplify(clauses))
+
+
 def dnf(e, pol=True):
     """DNF (list of frozensets of (pred, polarity)) of a boolean expression"""
     if isinstance(e, ast.UnaryOp) and isinstance(e.op, ast.Not):
         return dnf(e.operand, not pol)
+    if isinstance(e, ast.Call) and isinstance(e.func, ast.Name) and pol:
+        h = _helper_truthy_dnf(e)
+        if h is not None:
+            return h
     if isinstance(e, ast.BoolOp):
         is_and = isinstance(e.op, ast.And) == pol
         parts = [dnf(v, pol) for v in e.values]
@@ -192,6 +234,7 @@ def rule_eq_ladders(ck, repo):
         ck.require(c is not None, f'{cname} vanished')
         f = c.method('__eq__')
         ck.require(f is not None, f'{cname}.__eq__ vanished')
+        HELPER_TREE[0] = m.tree
         clauses, fall = reject_dnf(strip_doc(f.node.body))
         ck.require(not fall, f'{cname}.__eq__ can fall off the end without a verdict')
         got = simplify(clauses)
